@@ -153,6 +153,11 @@ pub enum IoFault {
     NoDir,
     /// the path is a directory (EISDIR)
     IsDir,
+    /// no fault, but not a fresh path either: a longer file already exists there (the call has
+    /// to replace it, not write into it)
+    Overwrite,
+    /// no fault, and not a regular file: /dev/null takes every byte (the call has to return Ok)
+    DevNull,
 }
 
 #[derive(Clone, Debug, PartialEq, Serialize, Deserialize)]
